@@ -320,7 +320,7 @@ def harvest_leg(ctx):
             out = os.path.join(ctx["outdir"], f"C03.harvest.{p}.{i}.json")
             cmd = [binary, "run", p, "--tier", "quick", "--seed", str(ctx["seed"]), "--shard", f"{i}/{n}", "--out", out, "--build", "chk", "--scale", scale]
             jobs.append({"shard": i, "nshards": n, "build": "chk", "cmd": cmd, "out": out})
-        rs, ps = triage.run_procs(jobs, ctx["verif"], "C03", f"workload of {p}", "quick", ctx["seed"], timeout=3600, log=ctx["log"])
+        rs, ps = triage.run_procs(jobs, ctx["verif"], "C03", f"workload of {p}", "quick", ctx["seed"], timeout=3 * 3600, log=ctx["log"], budgets=PROPS.get(p, {}).get("triage_budgets"))
         for q in ps:
             q["build"] = f"harvest:{p}"
         problems += ps
@@ -618,3 +618,7 @@ for _p, _t in {
     "C19": " Receivers cover the neighbourhood of every zone's transitions, including days whose midnight is skipped from before it.",
 }.items():
     PROPS[_p]["manifest"]["text"] += _t
+
+# C16's thorough tier has cases that legitimately take minutes (one case = one astronomical calendar scanned over 3000 ISO years: 5 min measured):
+# four times the default budgets there
+PROPS["C16"]["triage_budgets"] = (4800, 3600)
